@@ -76,11 +76,7 @@ def panicSites : List String := [
   "gtfs.Vehicle.GetTrip: deref *vehicle.Trip  [guard: nil-checked]",
   "gtfs.convertOptionalTimestamp: deref *in  [guard: nil-checked]",
   "gtfs.hashNumberPtr: deref *a  [guard: nil-checked]",
-  "gtfs.hasher.flush: slice h.b[:h.n]  [unguarded: gtfs: slice [256]byte]",
-  "gtfs.hasher.next: slice h.b[h.n : h.n+size]  [unguarded: gtfs: slice [256]byte]",
-  "gtfs.hasher.number: index b[0]  [unguarded: gtfs: index []byte]",
   "gtfs.hasher.number: panic   [unguarded: gtfs: panic in hasher.number]",
-  "gtfs.hasher.string: slice h.b[h.n:]  [unguarded: gtfs: slice [256]byte]",
   "gtfs.hasher.stringPtr: deref *a  [guard: nil-checked]",
   "gtfs.hasher.trip: deref *event.Delay  [guard: nil-checked]",
   "gtfs.hasher.trip: index t.StopTimeUpdates[i]  [guard: range-index]",
@@ -183,10 +179,8 @@ def panicSiteKinds : List String := [
   "gtfs: index [3]int",
   "gtfs: index [7]csv.RequiredColumn",
   "gtfs: index []bool",
-  "gtfs: index []byte",
   "gtfs: index []gtfs.Stop",
   "gtfs: panic in hasher.number",
-  "gtfs: slice [256]byte",
   "journal: deref *journal.Trip",
   "journal: index []journal.StopTime",
   "journal: slice []gtfs.StopTimeUpdate",
